@@ -175,6 +175,43 @@ pub fn check_step(pre: &Pre, e: Ev, rep: &StepReport, sim: &Sim) -> Vec<Viol> {
                 }
             }
         }
+        // ---- C14 (1): an exclusive connection released while a request is still waiting for its own
+        //      attempt must be offered to that request, not parked in the idle list
+        for &c in &rep.new_idle {
+            let cs = &w.conns[c];
+            if cs.h2 || !cs.open || cs.busy {
+                continue;
+            }
+            for (ri, r) in sim.reqs.iter().enumerate() {
+                if Some(ri as u8) == match e { Ev::Poll(x) | Ev::Cancel(x) => Some(x), _ => None } {
+                    continue;
+                }
+                let Some(f) = r.fut.as_ref() else { continue };
+                let st = f.verif_stage();
+                let origin = world::origin_of(&cfg.origins[r.origin as usize].parse().unwrap());
+                if origin.eq_ignore_ascii_case(&cs.origin) && r.handoff.is_none() && r.inbox.is_none() && r.held.is_none() && st.contains("inner=connecting") && !st.contains("holds=true") {
+                    out.push(v("C14", "released-bypasses-waiting", format!("open c{c} for {} was released and parked idle although r{ri} is still waiting for its own connection attempt (stage {st})", cs.origin)));
+                    break;
+                }
+            }
+        }
+        // ---- C04: an open connection released by a finished request is kept
+        for &t in &rep.bg_done {
+            if sim.bgs[t as usize].kind() != "when-ready" {
+                continue;
+            }
+            for (c, bt) in &rep.bg_ready_polls {
+                if *bt != t {
+                    continue;
+                }
+                let cs = &w.conns[*c];
+                let snap = &sim.snap;
+                let room = snap.max_idle_per_host > 0 && snap.tokens.iter().all(|tk| tk.idle.len() < snap.max_idle_per_host || tk.idle.iter().any(|i| i.conn.parse::<usize>().ok() == Some(*c)));
+                if cs.open && !cs.busy && !cs.upgraded && cs.handles <= 0 && room {
+                    out.push(v("C04", "released-connection-dropped", format!("open, ready c{c} was released by a finished request but the pool dropped it instead of keeping it")));
+                }
+            }
+        }
         // ---- C04 (d): cancelling a request that has not used a connection destroys a pooled one
         if let Ev::Cancel(r) = e {
             if !pre.handed[r as usize] {
